@@ -252,4 +252,8 @@ def standin(tier, seed):
                                     "m": float(rng.uniform(1, 200)), "N": int(rng.integers(0, 50)), "u": u}, V)
         check_case("gc_deletion", {"T": T, "E": dE, "E0": 0.0, "mu": float(rng.normal()), "V": float(10 ** rng.uniform(0, 5)),
                                    "m": float(rng.uniform(1, 200)), "N": int(rng.integers(0, 50)), "u": u}, V)
-    return V.result(bound=f"grid {len(Ts)}x{len(dEs)}x{len(us)} + {n_rand} random points per criteria (seed {seed})")
+    # Hamiltonian clause on the REAL move: the reference total energy the criteria compares against is that of the atoms as they
+    # start the trajectory (constraints and forced rescaling of the draw included)
+    from . import C14 as _c14
+    _c14.reference_ke_scenarios(V, seed, "hamiltonian:reference_energy_is_not_that_of_the_atoms_at_the_start_of_the_trajectory")
+    return V.result(bound=f"real Hamiltonian move under 4 distribution / constraint variants; grid {len(Ts)}x{len(dEs)}x{len(us)} + {n_rand} random points per criteria (seed {seed})")
